@@ -48,6 +48,9 @@ theorem gg_struct (ms : List Member) :
   · rintro ⟨⟨n, a⟩, s, c⟩; exact ⟨s, n, fun m hm => ⟨a m hm, c m hm⟩⟩
   · rintro ⟨s, n, h⟩; exact ⟨⟨n, fun m hm => (h m hm).1⟩, s, fun m hm => (h m hm).2⟩
 
+theorem gg_iterator (t : Ty) : GenGood cfg sfh (.iterator t) ↔ GenGood cfg sfh t := by
+  unfold GenGood; conv => lhs; unfold Ty.WF Ty.TA
+
 theorem generalizeL_mem (ts : List Ty) (g : Ty) (h : g ∈ generalizeL ts) : ∃ t ∈ ts, g = generalize t := by
   induction ts with
   | nil => simp [generalizeL] at h
@@ -207,6 +210,10 @@ theorem gg_gen : ∀ (n : Nat) (t : Ty), t.w ≤ n → GenGood cfg sfh t → Gen
       rw [gg_sensitive] at gt; simp only [Ty.w] at hw
       have key : GenGood cfg sfh (.sensitive (genericType x)) := by rw [gg_sensitive]; exact (ih x (by omega) gt).2
       simp only [generalize, genericType]; exact ⟨key, key⟩
+    | iterator x =>
+      rw [gg_iterator] at gt; simp only [Ty.w] at hw
+      have key : GenGood cfg sfh (.iterator (genericType x)) := by rw [gg_iterator]; exact (ih x (by omega) gt).2
+      simp only [generalize, genericType]; exact ⟨key, key⟩
     | typ x =>
       rw [gg_typ] at gt; simp only [Ty.w] at hw
       have key : GenGood cfg sfh (.typ (genericType x)) := by rw [gg_typ]; exact (ih x (by omega) gt).2
@@ -257,7 +264,7 @@ def Ty.GenOKV (t : Ty) : Prop :=
   | .tuple ts _ => ∀ t', ∀ (_ : t' ∈ ts), Ty.GenOKV t'
   | .struct ms => ∀ m, ∀ (_ : m ∈ ms), Ty.GenOKV m.2.2
   | .variant ts => ∀ t', ∀ (_ : t' ∈ ts), Ty.GenOKV t'
-  | .optional t' | .notUndef t' | .sensitive t' | .typ t' | .iterable t' => Ty.GenOKV t'
+  | .optional t' | .notUndef t' | .sensitive t' | .iterator t' | .typ t' | .iterable t' => Ty.GenOKV t'
   | _ => True
 termination_by t.w
 decreasing_by
@@ -380,6 +387,11 @@ theorem gen_asg_var (hl : ∀ s, (cfg.lower s).length = s.length) : ∀ (n : Nat
       unfold Ty.GenOKV at gt; unfold Ty.WF at wt; unfold Ty.TA at ft
       simp only [Ty.w] at hw
       have key := mono_sensitive cfg sfh _ _ (ih x (by omega) ⟨wt, ft⟩ gt).2
+      simp only [generalize, genericType]; exact ⟨key, key⟩
+    | iterator x =>
+      unfold Ty.GenOKV at gt; unfold Ty.WF at wt; unfold Ty.TA at ft
+      simp only [Ty.w] at hw
+      have key := mono_iterator cfg sfh _ _ (ih x (by omega) ⟨wt, ft⟩ gt).2
       simp only [generalize, genericType]; exact ⟨key, key⟩
     | typ x =>
       unfold Ty.GenOKV at gt; unfold Ty.WF at wt; unfold Ty.TA at ft
